@@ -23,7 +23,9 @@ def setup(stub_buffers=True):
     import pulser.register._coordinates as co
     import pulser.sampler.sampler as sp
 
-    facade.install(extra_np=(wm, tr, co))
+    import pulser.sequence.helpers._seq_str as ss
+
+    facade.install(extra_np=(wm, tr, co), extra_float=(ss,))
     stubs.init()
     if stub_buffers:
         stubs.install_buffer_stub()
@@ -223,6 +225,16 @@ def run_program(inp, seq, program, stop_on_refusal=True):
             if stop_on_refusal:
                 break
     return out
+
+
+def run_prefix(inp, seq, program):
+    """Runs ops that are *assumed* to succeed: a path on which one of them
+    is refused is discarded (it is not a history the harness is about)."""
+    for op in program:
+        try:
+            run_op(inp, seq, op)
+        except REFUSALS:
+            raise core.Infeasible()
 
 
 def new_seq(device_kind, reg_kind="reg3", inp=None):
